@@ -115,3 +115,11 @@ Theorem C10_src_nocits : forall r,
   Forall (fun x => qcits (fquals x) = None) (pr_features r) -> deref_record r = Ok r.
 Proof. exact deref_record_nocits. Qed.
 Print Assumptions C10_src_nocits.
+
+(* the bracketed-index form the product's citations are written in is the form _deref_citations
+   reads: "[k]" (k >= 1) as formatted by the regenerated _ref_citations dereferences, at the next
+   level, to the k-th reference of the product's list *)
+Theorem C10_src_readable : forall refs (k : positive),
+  deref_cit refs (cit_format_index (Zpos k)) = py_getitem refs (Zpos k - 1).
+Proof. exact deref_format. Qed.
+Print Assumptions C10_src_readable.
